@@ -182,26 +182,8 @@ def run(repo, res, tier):
     if n_sites == 0:
         res.ok("Q1-CLOBBER", "no store into velocity / velocity_y / orientation of a foreign state object in planning/ (nothing can be clobbered)")
 
-    # ---------------------------------------------------------------- Q2 (shared with C16)
-    umod = repo.mod(c16.U)
-    for cn in ("Interval", "AngleInterval"):
-        cls = repo.cls(c16.U, cn)
-        fn = cls.methods.get("contains")
-        if fn is None:
-            continue
-        p = fn.args.args[1].arg
-        found = False
-        for n in walk_no_nested(fn):
-            if isinstance(n, ast.Call) and call_name(n) == "isinstance" and norm(n.args[0]) == p:
-                found = True
-                t = norm(n.args[1])
-                ok = "Interval" in t or c16.numeric_isinstance_ok(n)
-                res.check("Q2-DISPATCH", "%s.contains: %s" % (cn, norm(n)), ok, umod, n, "%s.contains: %s" % (cn, norm(n)), "integer-valued state attributes (time steps, whole-number velocities) raise AttributeError in the goal check", qualname="%s.contains" % cn)
-            if isinstance(n, ast.Compare) and isinstance(n.left, ast.Call) and call_name(n.left) == "type" and norm(n.left.args[0]) == p:
-                found = True
-                res.check("Q2-DISPATCH", "%s.contains: %s" % (cn, norm(n)), "Interval" in norm(n.comparators[0]), umod, n, "%s.contains: %s" % (cn, norm(n)), "dispatch on a concrete numeric type", qualname="%s.contains" % cn)
-        if not found:
-            raise AnalysisError("%s.contains: dispatch test not found" % cn)
+    # ---------------------------------------------------------------- Q2 (shared with C16): evaluated
+    c16.dispatch_rule(repo, res, "Q2-DISPATCH")
 
     # ---------------------------------------------------------------- Q3..Q7: decided by evaluation (c08ev)
     from . import c08ev
